@@ -143,7 +143,7 @@ func (tr *FnCtx) finish() {
 	fn := tr.Fn
 	names := resultNames(fn)
 	// ensures
-	if tr.Spec != nil {
+	if tr.Spec != nil && !tr.Spec.Trusted {
 		for _, cl := range tr.Spec.Ensures {
 			var parts []string
 			var cases []string
@@ -198,7 +198,7 @@ func (tr *FnCtx) finish() {
 		tr.obls = append(tr.obls, &Obligation{Name: tr.Short + "/safety", Fn: tr.Short, Kind: "safety", Prefix: len(tr.cmds), Goal: and(ps...), Src: "no nil dereference, index out of range, nil-map write or explicit panic", Ctx: tr, Cases: cs})
 	}
 	// frame
-	if tr.Spec != nil && tr.Spec.HasMod {
+	if tr.Spec != nil && tr.Spec.HasMod && !tr.Spec.Trusted {
 		tr.frameObligations()
 	}
 	// vacuity canary: some return must be reachable under all assumptions
@@ -644,6 +644,14 @@ func (tr *FnCtx) lockAccess(st *State, p *Val, write bool, in ssa.Instruction) {
 		if lc.unguarded[fkey] || lc.unguarded[full] {
 			return
 		}
+		if !write && tr.Spec != nil {
+			for _, ar := range tr.Spec.AllowRead {
+				if strings.HasSuffix(tk+"."+p.Loc.Prefix, "."+ar) {
+					tr.assumesUsed = append(tr.assumesUsed, tr.Short+": unguarded read of "+ar+" (declared allowread)")
+					return
+				}
+			}
+		}
 		exempt := "(ite (< " + p.Loc.Obj + " 0) (>= (elemB " + p.Loc.Obj + ") " + tr.allocEntry + ") " + not(sel(pub, p.Loc.Obj)) + ")"
 		desc = fmt.Sprintf("%s of %s.%s", rw(write), shortType(tk), p.Loc.Prefix)
 		if lc.immutable[fkey] || lc.immutable[full] {
@@ -759,7 +767,8 @@ func isLogPkg(path string) bool {
 
 var pureExternalPrefixes = []string{"fmt.", "errors.", "github.com/friendsofgo/errors.", "github.com/pkg/errors.", "(github.com/gofrs/uuid.", "github.com/gofrs/uuid.",
 	"path.", "strings.", "strconv.", "(time.Time).", "(time.Duration).", "time.Since", "time.Now", "time.Sleep", "time.After", "context.", "(context.",
-	"(*github.com/friendsofgo/errors.", "(error).Error", "(*sync.WaitGroup).", "sync/atomic.", "(*sync.Mutex).", "(*sync.Once).", "os.", "(*os.File).", "math.", "unicode.", "bytes.", "sort.Strings", "sort.Ints"}
+	"(*github.com/friendsofgo/errors.", "(error).Error", "(*sync.WaitGroup).", "sync/atomic.", "(*sync.Mutex).", "(*sync.Once).", "os.", "(*os.File).", "math.", "unicode.", "bytes.", "sort.Strings", "sort.Ints",
+	"github.com/taskctl/taskctl/pkg/", "(*github.com/taskctl/taskctl/pkg/", "(github.com/taskctl/taskctl/pkg/", "(context.Context)."}
 
 // callMods returns statically the components a call may modify (for loop havoc), or all=true.
 func (tr *FnCtx) callMods(c *ssa.CallCommon) ([]Comp, bool) {
@@ -783,7 +792,12 @@ func (tr *FnCtx) callMods(c *ssa.CallCommon) ([]Comp, bool) {
 			return tr.patComps(h.mods), false
 		}
 		if spec := tr.W.C.Funcs["iface::"+c.Method.FullName()]; spec != nil {
-			return tr.specMods(spec, tr.Pkg)
+			return tr.specMods(spec, tr.W.Pkgs[spec.Pkg].Types)
+		}
+		for _, p := range pureExternalPrefixes {
+			if strings.HasPrefix(c.Method.FullName(), p) {
+				return []Comp{compClock}, false
+			}
 		}
 		return nil, true
 	}
@@ -791,6 +805,9 @@ func (tr *FnCtx) callMods(c *ssa.CallCommon) ([]Comp, bool) {
 	if f == nil {
 		if _, isParam := c.Value.(*ssa.Parameter); isParam {
 			return nil, false // callbacks: assumed not to modify modelled state (listed assumption)
+		}
+		if fieldFuncName(c.Value) != "" {
+			return nil, false
 		}
 		return nil, true
 	}
@@ -812,6 +829,23 @@ func (tr *FnCtx) callMods(c *ssa.CallCommon) ([]Comp, bool) {
 		}
 	}
 	return nil, true
+}
+
+// fieldFuncName: the value is a function loaded from a struct field (injected dependency), or a free variable holding one.
+func fieldFuncName(v ssa.Value) string {
+	if u, ok := v.(*ssa.UnOp); ok {
+		if fa, ok := u.X.(*ssa.FieldAddr); ok {
+			st := fa.X.Type().Underlying().(*types.Pointer).Elem().Underlying().(*types.Struct)
+			return st.Field(fa.Field).Name()
+		}
+		if fv, ok := u.X.(*ssa.FreeVar); ok {
+			return fv.Name()
+		}
+		if al, ok := u.X.(*ssa.Alloc); ok {
+			return al.Comment
+		}
+	}
+	return ""
 }
 
 func (tr *FnCtx) patComps(pats []string) []Comp {
@@ -863,6 +897,12 @@ func (tr *FnCtx) call(st *State, c *ssa.CallCommon, instr ssa.Instruction, mode 
 		if spec := tr.W.C.Funcs["iface::"+name]; spec != nil {
 			return tr.applyContract(st, nil, spec, c.Method, append([]*Val{recv}, args...), nil, resT, instr, mode)
 		}
+		for _, p := range pureExternalPrefixes {
+			if strings.HasPrefix(name, p) {
+				tr.externUsed["pure-external: "+name] = true
+				return fresh("ext")
+			}
+		}
 		tr.note("interface call without contract: " + name + " (everything havocked)")
 		if mode != "go" {
 			tr.havocAll(st)
@@ -875,6 +915,12 @@ func (tr *FnCtx) call(st *State, c *ssa.CallCommon, instr ssa.Instruction, mode 
 			tr.note("call of function-typed parameter " + c.Value.Name() + ": assumed not to modify modelled state")
 			tr.callbackCalls = append(tr.callbackCalls, c.Value.Name())
 			return fresh("cb")
+		}
+		if fname := fieldFuncName(c.Value); fname != "" {
+			tr.note("call of injected function field " + fname + ": assumed not to modify modelled state")
+			tr.callbackCalls = append(tr.callbackCalls, "field "+fname)
+			r := fresh("cbf")
+			return r
 		}
 		tr.note("call of unknown function value " + c.Value.Name() + " (everything havocked)")
 		if mode != "go" {
@@ -1045,6 +1091,7 @@ func (tr *FnCtx) applyContract(st *State, f *ssa.Function, spec *FuncSpec, metho
 	for _, cl := range spec.Ensures {
 		tr.assume(tr.evalClause(post, cl))
 	}
+	tr.runAts(st, fmt.Sprintf("after %s#%d", calleeName, k), vars)
 	if f != nil && tr.lockSweep {
 		// balanced lock protocol of the callee (proved for it as lockproto[balanced])
 		if _, listed := tr.modTable(spec, pkg)["$held"]; !listed || !spec.HasMod {
@@ -1251,8 +1298,13 @@ func (tr *FnCtx) appendOp(st *State, c *ssa.CallCommon, resT types.Type) *Val {
 		return &Val{T: resT, A: s.A}
 	}
 	elems, ok := tr.constSliceElems(c.Args[1])
+	if !ok && len(s.A) == 4 {
+		if t := tr.val(c.Args[1]); len(t.A) == 4 {
+			return tr.appendSlice(st, s, t, et, resT)
+		}
+	}
 	if !ok || len(s.A) != 4 {
-		tr.note("append of a non-literal slice: result and element memory unconstrained")
+		tr.note("append of a non-slice value: result and element memory unconstrained")
 		for _, cc := range tr.W.cellComps(et) {
 			tr.havocComp(st, cc)
 		}
@@ -1282,7 +1334,7 @@ func (tr *FnCtx) appendOp(st *State, c *ssa.CallCommon, resT types.Type) *Val {
 		t := ite(inplace, old, moved)
 		for j, ev := range evals {
 			if ci < len(ev.A) {
-				t = store(t, tr.elem(rbase, add(add(roff, ln), intLit(int64(j)))), ev.A[ci])
+				t = store(t, tr.at(rbase, roff, add(ln, intLit(int64(j)))), ev.A[ci])
 			}
 		}
 		tr.set(st, cc, t)
@@ -1306,4 +1358,27 @@ func (tr *FnCtx) copyOp(st *State, c *ssa.CallCommon, resT types.Type) *Val {
 			nw, d.A[0], d.A[1], d.A[1], n, old, s.A[0], s.A[1], d.A[1], old, nw))
 	}
 	return &Val{T: resT, A: []string{n}}
+}
+
+// appendSlice: append(s, t...) for an arbitrary slice t (bulk copy, quantified).
+func (tr *FnCtx) appendSlice(st *State, s, t *Val, et types.Type, resT types.Type) *Val {
+	base, off, ln, cp := s.A[0], s.A[1], s.A[2], s.A[3]
+	tb, toff, n := t.A[0], t.A[1], t.A[2]
+	inplace := tr.define(tr.fresh("inplace"), "Bool", "(<= (+ "+ln+" "+n+") "+cp+")")
+	nb := tr.newObj(st)
+	ncap := tr.freshConst("newcap", "Int")
+	tr.assume("(>= " + ncap + " (+ " + ln + " " + n + "))")
+	for _, cc := range tr.W.cellComps(et) {
+		old := tr.cur(st, cc)
+		m1 := tr.freshConst(cc.Name+"@ai", cc.Sort)
+		tr.assumeRaw(fmt.Sprintf("(forall ((a Int)) (! (= (select %s a) (ite (and (< a 0) (= (elemB a) %s) (<= (+ %s %s) (elemI a)) (< (elemI a) (+ %s %s %s))) (select %s (elem %s (+ %s (- (elemI a) (+ %s %s))))) (select %s a))) :pattern ((select %s a))))",
+			m1, base, off, ln, off, ln, n, old, tb, toff, off, ln, old, m1))
+		m2 := tr.freshConst(cc.Name+"@ar", cc.Sort)
+		tr.assumeRaw(fmt.Sprintf("(forall ((a Int)) (! (= (select %s a) (ite (and (< a 0) (= (elemB a) %s) (<= 0 (elemI a)) (< (elemI a) %s)) (select %s (elem %s (+ %s (elemI a)))) (ite (and (< a 0) (= (elemB a) %s) (<= %s (elemI a)) (< (elemI a) (+ %s %s))) (select %s (elem %s (+ %s (- (elemI a) %s)))) (select %s a)))) :pattern ((select %s a))))",
+			m2, nb, ln, old, base, off, nb, ln, ln, n, old, tb, toff, ln, old, m2))
+		tr.set(st, cc, ite(inplace, m1, m2))
+	}
+	rbase := tr.define(tr.fresh("abase"), "Int", ite(inplace, base, nb))
+	roff := tr.define(tr.fresh("aoff"), "Int", ite(inplace, off, "0"))
+	return &Val{T: resT, A: []string{rbase, roff, "(+ " + ln + " " + n + ")", ite(inplace, cp, ncap)}}
 }
